@@ -31,7 +31,35 @@ fn collect<'a, T: DiffableStr + ?Sized + 'a>(d: &'a TextDiff<'a, 'a, 'a, T>) -> 
             break;
         }
     }
-    let all: Vec<Row> = d.iter_all_changes().map(|c| (c.tag(), c.old_index(), c.new_index(), c.value().as_bytes().to_vec())).collect();
+    // plain next() calls are the reference expansion (a `for` loop); every other way of consuming the
+    // iterator must deliver the same changes, also after a prefix of next() calls
+    let mut all: Vec<Row> = Vec::new();
+    {
+        let mut it = d.iter_all_changes();
+        #[allow(clippy::while_let_on_iterator)]
+        while let Some(c) = it.next() {
+            all.push((c.tag(), c.old_index(), c.new_index(), c.value().as_bytes().to_vec()));
+        }
+    }
+    let folded: Vec<Row> = d.iter_all_changes().map(|c| (c.tag(), c.old_index(), c.new_index(), c.value().as_bytes().to_vec())).collect();
+    if folded != all {
+        ITER_FAILS.with(|f| f.borrow_mut().push(format!("iter_all_changes().map().collect() yields {} changes, a loop of next() calls {}", folded.len(), all.len())));
+    }
+    let salt = all.iter().fold(all.len() as u64 * 2654435761 + d.ops().len() as u64, |h, r| h.wrapping_mul(31).wrapping_add(r.3.len() as u64 + r.1.unwrap_or(7) as u64));
+    if all.len() <= 80 && salt % 16 == 0 {
+        let row = |c: similar::Change<&'a T>| format!("{:?} {:?} {:?} {}", c.tag(), c.old_index(), c.new_index(), show(c.value().as_bytes()));
+        let fails = iter_battery(&|| d.iter_all_changes(), &row, salt);
+        if let Some(f) = fails.into_iter().next() {
+            ITER_FAILS.with(|x| x.borrow_mut().push(format!("iter_all_changes(): {}", f)));
+        }
+        if let Some(op) = d.ops().get(salt as usize % d.ops().len().max(1)) {
+            let fails = iter_battery(&|| d.iter_changes(op), &row, salt / 3);
+            if let Some(f) = fails.into_iter().next() {
+                ITER_FAILS.with(|x| x.borrow_mut().push(format!("iter_changes({:?}): {}", op, f)));
+            }
+        }
+        ITER_BATTERIES.with(|c| c.set(c.get() + 1));
+    }
     let per_op: Vec<Row> = d
         .ops()
         .iter()
@@ -44,6 +72,9 @@ fn collect<'a, T: DiffableStr + ?Sized + 'a>(d: &'a TextDiff<'a, 'a, 'a, T>) -> 
 thread_local! {
     /// disagreements between the accessors of one change, picked up by `judge`
     static ACCESSOR_FAILS: std::cell::RefCell<Vec<String>> = std::cell::RefCell::new(Vec::new());
+    /// disagreements between ways of consuming the change iterators, picked up by `judge`
+    static ITER_FAILS: std::cell::RefCell<Vec<String>> = std::cell::RefCell::new(Vec::new());
+    static ITER_BATTERIES: std::cell::Cell<u64> = std::cell::Cell::new(0);
     /// newline_terminated override applied by run_diff (0 none, 1 true, 2 false)
     static NL_OVERRIDE: std::cell::Cell<u8> = std::cell::Cell::new(0);
 }
@@ -146,6 +177,10 @@ fn judge(what: &str, rows: &[Row], a: &[u8], b: &[u8], ctx: &dyn Fn() -> String,
     for f in ACCESSOR_FAILS.with(|f| std::mem::take(&mut *f.borrow_mut())) {
         out.violation("text.value_accessors", format!("{} | {}", f, ctx()));
     }
+    for f in ITER_FAILS.with(|f| std::mem::take(&mut *f.borrow_mut())) {
+        out.violation("text.iterator_protocol", format!("{} | {}", f, ctx()));
+    }
+    out.count_n("iterator_batteries_run", ITER_BATTERIES.with(|c| c.replace(0)));
     let mut old = Vec::new();
     let mut new = Vec::new();
     let (mut oi, mut ni) = (0usize, 0usize);
